@@ -452,6 +452,30 @@ def chk_caret_range(F, E, body, s):
     return from_string_range(body, ra) and from_string_range(body, rb)
 
 
+def chk_line_number_slices(F, E, body, s):
+    """`line[a..]` / `line[a..b]` in parse_line_number: a is an offset returned by str::find on the same string (a char
+    boundary) or a char_indices() offset; b is a char_indices() offset + 1 of an ASCII digit, or a + the length of a run of
+    ASCII digits (one byte each) counted from a."""
+    from lib import ascii_digit_run
+    rng = strip_expr(body.expr(s.call.args[1]))
+    if rng[0] != "agg" or not str(rng[1]).split("::")[-1].startswith("Range"):
+        return False
+
+    def boundary(e):
+        e = strip_expr(e)
+        names = [x[1].split("::")[-1] for x in expr_calls(e)]
+        if e[0] == "place" and isinstance(e[1], tuple) and e[1][0] == "call" and e[1][1].endswith("<impl str>::find"):
+            return True
+        if ascii_digit_run(F, body, e) is not None:
+            return boundary(ascii_digit_run(F, body, e)[0])
+        if "char_indices" in names:
+            return True
+        # user variables fed from char_indices offsets (the one-pass form)
+        from lib import call_names_deep
+        return "char_indices" in call_names_deep(body, e)
+    return all(boundary(x) for x in rng[3])
+
+
 R = {}
 
 
@@ -519,7 +543,8 @@ row(P + "random::Rng::random|assert|Overflow:Mul", "INV-RNG", "seed <= 2^33-1 at
 row(P + "random::Rng::random|assert|Overflow:Add", "INV-RNG", "seed <= 2^33-1 at every read (C18 interval argument)")
 # ---- line number parser
 row(P + "line_number_parser::parse_line_number|index|index|of:arg0", "INV-CHARBOUNDARY",
-    "start/end are char_indices() offsets of ASCII digits of the same string, start < end")
+    "the slice bounds are char boundaries of the same string: offsets from char_indices()/find(), ends one ASCII digit further "
+    "or a counted run of ASCII digits further", chk_line_number_slices)
 # ---- tokenizer (cursor invariants are C13's obligations)
 T = P + "tokenizer::Tokenizer::"
 row(T + "remaining_bytes|index|index|of:bytes", "INV-CURSOR", "index <= len: the cursor only advances over bytes that were read")
